@@ -161,6 +161,16 @@ Next == x' = x
                           dict(shape=list(grid.shape), gdt=str(grid.dtype), pdt=str(pos.dtype)))
         return grid
 
+    def gridlayout(g, mode):
+        """the caller's grid in another memory layout: contiguous copy / every second plane of a wider buffer / Fortran order"""
+        mode = mode % 3
+        if mode == 1:
+            big = np.zeros(g.shape[:2] + (2 * g.shape[2],), dtype=g.dtype)
+            v = big[:, :, ::2]
+            v[...] = g
+            return v
+        return np.asfortranarray(g.copy()) if mode == 2 else g.copy()
+
     def run_tsc_scatter(shape, box, ms, ws, o, pdt, gdt, base=None):
         pos = positions(ms, shape, box, pdt)
         grid = np.zeros(shape, dtype=gdt) if base is None else base.astype(gdt).copy()
@@ -233,7 +243,7 @@ Next == x' = x
                     n1d = shape[coord]
                     for nthread, nparts in ((1, None), (2, None), (4, None), (3, 2), (16, None), (2, max(2, 2 * (n1d // 6))), (1, 3), (1, 1), (1, 5 + 2 * (rep % 3)), (1, 2 * (1 + rep % 4))):   # one thread accepts any stripe count, odd ones too
                         try:
-                            g2 = supplied(relayout(pos, rep + nthread), base.copy(), box, weights=None if w is None else relayout(w, rep // 3 + coord), nthread=nthread, npartition=nparts,
+                            g2 = supplied(relayout(pos, rep + nthread), gridlayout(base, rep + nthread // 2), box, weights=None if w is None else relayout(w, rep // 3 + coord), nthread=nthread, npartition=nparts,
                                               coord=coord, sort=bool((rep // 2) % 2), offset=off)
                         except ValueError:
                             continue
